@@ -548,6 +548,14 @@ FRAMES = [   # (source, expected text): empty arguments of macros that parse wit
     ('\\documentclass{article}\\usepackage[]{ifthen}\\def\\zzA{A}\\begin{document}x\\zzA y\\end{document}', 'xAy'),
     ('\\def\\zzA{A}\\ifx{}{}s\\else d\\fi\\def\\zzB{B}{\\zzA\\zzB}\\zzA\\zzB', 'sABAB'),
     ('\\documentclass[]{article}\\begin{document}\\section{}\\textbf{}\\def\\zzA{A}{\\zzA}\\zzA\\end{document}', 'AA'),
+    # definitions local to an environment: inside eqnarray / align, \\\\ is the row end that steps the equation counter -- also when
+    # an environment of the base class (eqnarray*) was used before it (the innermost live definition wins)
+    ('\\documentclass{article}\\begin{document}\\begin{eqnarray*}a&=&b\\end{eqnarray*}\\begin{eqnarray}c&=&d\\\\ e&=&f\\end{eqnarray}'
+     '\\arabic{equation}\\end{document}', 'a=bc=de=f2'),
+    ('\\documentclass{article}\\usepackage{amsmath}\\begin{document}\\begin{eqnarray*}a&=&b\\end{eqnarray*}\\begin{align}c&=d\\\\ e&=f'
+     '\\end{align}\\arabic{equation}\\end{document}', 'a=bc=de=f2'),
+    ('\\documentclass{article}\\begin{document}\\begin{eqnarray}c&=&d\\\\ e&=&f\\end{eqnarray}\\begin{eqnarray*}a&=&b\\\\ g&=&h\\end{eqnarray*}'
+     '\\arabic{equation}\\end{document}', 'c=de=fa=bg=h2'),
 ]
 
 
